@@ -21,7 +21,9 @@ package main
 //	                     fallthrough) its source text
 //
 // Text is what go/printer prints for the AST node, white space collapsed to single blanks (so
-// comments, line breaks and indentation never matter). A function literal inside any statement
+// comments, line breaks and indentation never matter) and the trailing comma of a call or
+// composite literal spread over several lines removed (", )" ", }" ", ]" -> ")" "}" "]").
+// A function literal inside any statement
 // is printed as "func<signature> {…}" and followed, one level deeper, by a row
 // "func literal <n>" and the literal's body two levels deeper (n counts the literals of the
 // statement from 1 in source order), so closures handed to goroutines, to `sconn.Read`, to
